@@ -1,1 +1,9 @@
 import SSVerif.Props.C07
+open SSVerif.AcmodBuf
+#print axioms C07_features_canonical
+#print axioms C07_frames_searched_const
+#print axioms C07_chunking_independent
+#print axioms C07_alignment_canonical
+#print axioms C07_ring_safe_open
+#print axioms C07_ring_safe
+#print axioms C07_consts_ok
